@@ -173,3 +173,11 @@ def tla_hist(hist):
             return "[" + ", ".join("%s |-> %s" % (k, val(x)) for k, x in v.items()) + "]"
         raise TypeError(v)
     return "<<" + ", ".join(val(c) for c in hist) + ">>"
+
+
+def emit_many(report, module, named_consts, parallel=8, workers=2, timeout=3000):
+    """Several Record-mode runs concurrently (one JVM each); returns {name: (maximal, table, consts)}."""
+    from concurrent.futures import ThreadPoolExecutor
+    with ThreadPoolExecutor(max_workers=parallel) as ex:
+        futs = {name: ex.submit(emit, report, module, name, consts, None, None, None, timeout, workers) for name, consts in named_consts}
+        return {name: f.result() for name, f in futs.items()}
